@@ -538,6 +538,26 @@ func SetValue(dest, v reflect.Value) {
 	case reflect.Uint, reflect.Uint8, reflect.Uint16, reflect.Uint32, reflect.Uint64:
 		dest.SetUint(EnsureUint64(v.Interface()))
 		return
+	case reflect.Map:
+		// an untyped wire map (map[interface{}]interface{}) assigned to a typed Go map
+		if v.Kind() == reflect.Map {
+			m := reflect.MakeMapWithSize(dest.Type(), v.Len())
+			for _, k := range v.MapKeys() {
+				setMapIndex(m, reflect.ValueOf(k.Interface()), reflect.ValueOf(v.MapIndex(k).Interface()))
+			}
+			dest.Set(m)
+			return
+		}
+	case reflect.Slice:
+		// a decoded list whose element type differs from the destination's ([]interface{} -> []T)
+		if v.Kind() == reflect.Slice {
+			if cv, err := ConvertSliceValueType(dest.Type(), v); err == nil {
+				if cv.IsValid() {
+					dest.Set(cv)
+				}
+				return
+			}
+		}
 	}
 
 	dest.Set(v)
